@@ -250,6 +250,8 @@ def run_generated(tier, rng, tmodel, workdir):
 
 FAMILY_PRELUDE = '''%(define)s
 #include <trompeloeil.hpp>
+#include <string>
+#include <vector>
 %(coro_inc)s
 using trompeloeil::_;
 struct I { virtual ~I() = default; virtual int vi(int) = 0; virtual void vc() const = 0; };
@@ -267,6 +269,22 @@ struct M : trompeloeil::mock_interface<I> {
 %(coro_members)s
 };
 struct D { virtual ~D() = default; };
+// docs/CookBook.md, "A not_empty() matcher": duck typed, the predicate's trailing return type makes it SFINAE-friendly
+inline auto farm_not_empty()
+{
+  return trompeloeil::make_matcher<trompeloeil::wildcard>(
+    [](auto const& value) -> decltype(!value.empty()) { return !value.empty(); },
+    [](std::ostream& os) { os << " is not empty"; });
+}
+struct O {
+  @MAKE_MOCK1(func, void(int));
+  @MAKE_MOCK1(func, void(std::string&&));
+  @MAKE_MOCK1(func2, void(std::vector<int> const&));
+  @MAKE_MOCK1(over, void(int));
+  @MAKE_MOCK1(over, void(std::string const&));
+  @MAKE_MOCK1(ovp, void(int*));
+  @MAKE_MOCK1(ovp, void(char const*));
+};
 '''
 
 FAMILY = [
@@ -284,6 +302,12 @@ FAMILY = [
     ('generic_make', '@REQUIRE_CALL(m, gm(1)).@RETURN(2); @ALLOW_CALL(m, gc(_)).@RETURN(0);'),
     ('member_is', '@ALLOW_CALL(m, sp(@MEMBER_IS(&S::x, trompeloeil::eq(1))));'),
     ('require_destruction', 'auto* d = new trompeloeil::deathwatched<D>; { @REQUIRE_DESTRUCTION(*d); delete d; }'),
+    # duck-typed matchers on overloaded functions (CookBook: "is not ambiguous"): only the overloads the predicate can handle take part
+    ('duck_overload_not_empty', 'O o; @REQUIRE_CALL(o, func(farm_not_empty()));'),
+    ('duck_single_not_empty', 'O o; @REQUIRE_CALL(o, func2(farm_not_empty()));'),
+    ('duck_overload_eq_string', 'O o; @REQUIRE_CALL(o, over(trompeloeil::eq("foo")));'),
+    ('duck_overload_eq_int', 'O o; @ALLOW_CALL(o, over(trompeloeil::gt(3)));'),
+    ('typed_overload', 'O o; @ALLOW_CALL(o, over(trompeloeil::eq<int>(3))); @ALLOW_CALL(o, over(@ANY(std::string const&))); @ALLOW_CALL(o, ovp(trompeloeil::re("a")));'),
     ('named_require_destruction', 'auto* d = new trompeloeil::deathwatched<D>; auto r = @NAMED_REQUIRE_DESTRUCTION(*d).@IN_SEQUENCE(s); delete d; (void)r;'),
 ]
 FAMILY_CORO = [
